@@ -16,6 +16,7 @@ import (
 	"fmt"
 	"os"
 	"regexp"
+	"runtime"
 	"runtime/debug"
 	"sort"
 	"strconv"
@@ -106,6 +107,7 @@ type verifC11Env struct {
 	nact    int64
 	nid     int64
 	nacc    int64
+	nmark   int64
 	journal *os.File
 	pw      map[string][]byte // cheap bcrypt hashes by password
 }
@@ -283,8 +285,8 @@ func (e *verifC11Env) unloadIdle() error {
 	if n == 0 {
 		return nil
 	}
-	time.Sleep(200 * time.Microsecond)
-	return e.w.quiesce()
+	runtime.Gosched()
+	return e.quiesce()
 }
 
 func (e *verifC11Env) id() string {
@@ -613,11 +615,17 @@ func (e *verifC11Env) step(vs *verifSess, tag string, raw []byte, recoverPanic b
 		o.Infra = "dispatch blocked for 5s"
 		return o
 	}
-	if err := e.w.quiesce(); err != nil {
+	tq := time.Now()
+	if err := e.quiesce(); err != nil {
 		o.Infra = err.Error()
 	}
-	o.Frames = vs.take()
-	o.Reader = e.reader.take()
+	if !e.flush(vs) || !e.flush(e.reader) {
+		o.Infra = "session writer did not drain"
+	}
+	verifC11Tq += time.Since(tq)
+	verifC11Nq++
+	o.Frames = e.takeFrames(vs)
+	o.Reader = e.takeFrames(e.reader)
 	e.project(vs, o)
 	return o
 }
@@ -733,5 +741,8 @@ func (e *verifC11Env) absFrames(frames []verifFrame) []map[string]any {
 	}
 	return out
 }
+
+var verifC11Tq time.Duration
+var verifC11Nq int
 
 var verifC11ErrInfra = errors.New("verif: infrastructure")
